@@ -34,7 +34,8 @@ def run(chk):
         D = r.choice([1, 2, 3])
         scale = r.choice(["unit", "unit", "mixed"])
         w, mu, var, s = gen.gen_gmm(r, C, D, scale)
-        m = make_gmm(w, mu, var)
+        # (the statistics do not depend on the machine's TRAINING switches: every other case has them all off / mixed)
+        m = make_gmm(w, mu, var) if i % 2 else make_gmm(w, mu, var, update_means=bool(i % 4 == 0 and False), update_variances=False, update_weights=bool(i % 4))
         N = r.choice([1, 2, 3, 4, 5, 6]) if chk.tier == "quick" else r.choice([1, 2, 3, 4, 5, 6, 9])
         mode = r.choice(["model", "shift", "tail10", "dup"])
         X = gen.gen_data(r, w, mu, var, N, mode)
